@@ -19,6 +19,15 @@ Theorem C11_append_collects_everything_in_order : forall st acc args,
 Proof. exact append_spec. Qed.
 Print Assumptions C11_append_collects_everything_in_order.
 
+(* Count and ErrorOrNil of the result: Count is the number of contained errors, ErrorOrNil is nil exactly when there are none *)
+Theorem C11_append_count_and_error_or_nil : forall st acc args,
+  val_ok st acc -> (forall v, In v args -> val_ok st v /\ not_acc acc v) ->
+  let '(st', r) := append st acc args in
+  count st' r = Z.of_nat (length (items st acc) + length (flat_map (items st) args)) /\
+  (error_or_nil_is_nil st' r = true <-> items st acc ++ flat_map (items st) args = []).
+Proof. exact append_count. Qed.
+Print Assumptions C11_append_count_and_error_or_nil.
+
 (* chains of repeated Append on an accumulator *)
 Theorem C11_append_chain : forall st a args1 args2, a < length st -> chain_of st a <> [] ->
   (forall v, In v (args1 ++ args2) -> val_ok st v /\ not_acc (VRef a) v) ->
